@@ -7,7 +7,9 @@ ASSUMPTIONS = ['clap option syntax is outside the model: order independence on t
                'expressions in generated configurations use only functions present in the Coq evaluator']
 TRUSTED = ['std collections (BTreeMap order, VecDeque, HashSet with an ideal hasher, IndexMap insertion order) modelled as lists']
 
+FILEPARTS = {}
 def gen_cases(ctx):
+    FILEPARTS.clear()
     rnd = ctx['rnd']; tier = ctx['tier']
     n = 2500 if tier == 'quick' else 12000
     out = []
@@ -23,6 +25,13 @@ def gen_cases(ctx):
         if x < 0.25 and rnd.random() < 0.5:
             cfg['only_objs'] = True; vals = [v for pair in zip(vals, [rnd.choice([1, 'x', None, -2, True, 'C:\\', 'q"', 'a\\"b', '\\', '{not an object}', '[', '']) for _ in vals]) for v in pair]
         out.append((cfg, gen.stream(vals, rnd)))
+        # every fifth configuration also reads the same values from 2..3 file arguments (C03_program_files: the rows are the
+        # composition applied to the values of all inputs in order); own generator state, so the other cases do not move
+        if i % 5 == 2 and len(vals) >= 2:
+            import random
+            r2 = random.Random(ctx.get('seed', 1) * 100003 + i)
+            cuts = sorted(r2.sample(range(0, len(vals) + 1), r2.choice([1, 2])))
+            FILEPARTS[len(out) - 1] = [gen.stream(vals[a:b], r2) for a, b in zip([0] + cuts, cuts + [len(vals)])]
     # selections absent in complementary columns, with --unique / sort / group on top
     COMP = [{'a': 1}, {'b': 1}, {'a': 1, 'b': 1}, {'a': 2}, {'b': 2}, {}, {'c': 1}, {'a': 1, 'c': 1}, {'a': None}]
     for i in range(n // 6):
@@ -52,6 +61,8 @@ def run(ctx):
         cases.append(mkcase('A%d' % i, cfg, data))
         # same configuration, options in another order on the command line
         c2 = mkcase('P%d' % i, cfg, data); c2['args'] = lib.spell_args(lib.permute_args(lib.cfg_args(cfg), rnd), rnd); cases.append(c2)
+        if i in FILEPARTS:
+            cases.append({'id': 'M%d' % i, 'cfg': cfg, 'files': True, 'inputs': [{'data': d, 'name': 'm%d_%s%d.json' % (i, 'abcd'[t], t)} for t, d in enumerate(FILEPARTS[i])]})
         if cfg['filter'] is not None and cfg['split'] is None and not cfg['set'] and not cfg['only_objs']:
             cases.append(mkcase('F%d' % i, lib.new_cfg(filter=cfg['filter']), data))     # filter alone
     impl, model, mism = common.correspond(cases)
@@ -80,6 +91,13 @@ def run(ctx):
             violations.append({'property': 'C03', 'relation': 'rows == rows of the documented composition of stages (computed by the model, proved equal to the composition by C03_program)',
                                'args': lib.cfg_args(cfg), 'stdin_hex': data.hex(), 'stdin': data.decode('utf8', 'replace'),
                                'observed': a['stdout'].decode('utf8', 'replace'), 'expected': m['stdout'].decode('utf8', 'replace')})
+        mi, mm = impl.get('M%d' % i), model.get('M%d' % i)
+        if mi is not None and mm is not None and mi['result'] == 'ok' and mm['result'] == 'ok':
+            checked += 1
+            if mi['stdout'] != mm['stdout'] and len(violations) < 5:
+                violations.append({'property': 'C03', 'relation': 'several file arguments: rows == rows of the documented composition over the values of all files in order (computed by the model, C03_program_files)',
+                                   'args': lib.cfg_args(cfg), 'files': True, 'file_hex': [d.hex() for d in FILEPARTS[i]], 'stdin_hex': b''.join(FILEPARTS[i]).hex(),
+                                   'observed': mi['stdout'].decode('utf8', 'replace'), 'expected': mm['stdout'].decode('utf8', 'replace')})
         g = impl2.get('G%d' % i)
         if g is not None and a['result'] == 'ok' and g['result'] == 'ok' and not uses_ictx(cfg):
             checked += 1
@@ -102,6 +120,7 @@ def uses_ictx(cfg):
 def replay(ctx, r):
     data = bytes.fromhex(r['stdin_hex'])
     c = {'id': 'r', 'cfg': lib.new_cfg(), 'args': r.get('args2') or r['args'], 'inputs': [{'data': data}]}
+    if r.get('files'): c = {'id': 'r', 'cfg': lib.new_cfg(), 'args': r['args'], 'files': True, 'inputs': [{'data': bytes.fromhex(h), 'name': 'm0_%s%d.json' % ('abcd'[t], t)} for t, h in enumerate(r['file_hex'])]}
     res = lib.run_harness([c])['r']
     obs = res['stdout'].decode('utf8', 'replace')
     return {'observed': obs, 'expected': r.get('expected'), 'fails': obs != r.get('expected')}
